@@ -217,6 +217,34 @@ def run(ctx):
                     nontriv.add((pattern, fv, glob_mode))
         if len(samples) < 3:
             samples.append({'pattern': pattern})
+    # the same equality for the flag words that choose the platform rules (FORCEWIN and FORCEUNIX together cancel out) and for
+    # NODIR, whose filter regex exists in two spellings (a compiled one for the matcher, a text for translate) - on names
+    # that tell them apart: case variants, both separators, directory-looking names with a line feed
+    tnames = ['abc', 'ABC', 'a/b', 'a\\b', 'A\\B', 'a/', 'a\nb/', 'a\n/', 'a\nb', 'x/a\nb/', 'a\nb/.', 'a/b/', 'a\\', 'a\nb\\', '.', 'a/..']
+    ntf = 0
+    for api in (Fm, Gm):
+        for pat_ in ('abc', 'a/b', 'a*', '*', '**', '*/', '**/*', 'A?c', 'a\\\\b'):
+            for plat in (0, api.FORCEWIN, api.FORCEUNIX, api.FORCEWIN | api.FORCEUNIX):
+                for xf in ((0, api.IGNORECASE, api.CASE) if api is Fm else (Gm.GLOBSTAR, Gm.GLOBSTAR | Gm.NODIR, Gm.GLOBSTAR | Gm.NODIR | Gm.DOTGLOB, Gm.NODIR | Gm.IGNORECASE)):
+                    fv = plat | xf
+                    for P_, conv in ((pat_, lambda x: x), (pat_.encode(), lambda x: x.encode())):
+                        try:
+                            pos, neg = api.translate(P_, flags=fv)
+                            cp, cn = [re.compile(r) for r in pos], [re.compile(r) for r in neg]
+                            cm = api.compile(P_, flags=fv)
+                        except Exception as e:
+                            ctx.counterexample('translate/compile(%r, %s) raised %s' % (P_, corr.flag_names(fv), type(e).__name__), {'pattern': repr(P_), 'flags': corr.flag_names(fv)})
+                            continue
+                        for n_ in tnames:
+                            ntf += 1
+                            N_ = conv(n_)
+                            got = any(r.fullmatch(N_) for r in cp) and not any(r.fullmatch(N_) for r in cn)
+                            want = cm.match(N_)
+                            if got != want:
+                                ctx.counterexample('translate(%r, %s) regexes %s %r but the matcher %s it' % (P_, corr.flag_names(fv), 'accept' if got else 'reject', N_, 'accepts' if want else 'rejects'),
+                                                   {'pattern': repr(P_), 'flags': corr.flag_names(fv), 'name': repr(N_), 'translate': [repr(pos), repr(neg)]})
+                                break
+    evals += ntf
     ctx.counted('translate vs matcher', evals, len(nontriv), samples)
 
     # ---- (2) captures on derivations known by construction -----------------------------------------------------
